@@ -45,7 +45,9 @@ class _Dom(Domain):
 
     def resolve_call(self, st, call, walker):
         if not self.inline:
-            return None
+            return walker.resolve_helper(st, call, skip={
+                '_delete_entity_now', '_clear_dead_entities',
+                '_on_single_dispatch'})
         r = walker.default_resolve(st, call)
         if r is None or r[0].name in PRIM or r[0].name in (
                 'remove_component', 'remove_processor'):
